@@ -348,8 +348,9 @@ public:
     template<class T2, class R = ResultType<T, T2>>
     base_array<R>& operator+=(const T2& rhs) noexcept {
         static_assert(std::is_same_v<T, R>, "the operation changes the type");
+        const T2 val = rhs;   //rhs may refer to an element of this array
         for (size_t i = 0; i < _vec.size(); ++i) {
-            _vec[i] += rhs;
+            _vec[i] += val;
         }
         return *this;
     }
@@ -357,8 +358,9 @@ public:
     template<class T2, class R = ResultType<T, T2>>
     base_array<R>& operator-=(const T2& rhs) noexcept {
         static_assert(std::is_same_v<T, R>, "the operation changes the type");
+        const T2 val = rhs;   //rhs may refer to an element of this array
         for (size_t i = 0; i < _vec.size(); ++i) {
-            _vec[i] -= rhs;
+            _vec[i] -= val;
         }
         return *this;
     }
@@ -366,8 +368,9 @@ public:
     template<class T2, class R = ResultType<T, T2>>
     base_array<R>& operator*=(const T2& rhs) noexcept {
         static_assert(std::is_same_v<T, R>, "the operation changes the type");
+        const T2 val = rhs;   //rhs may refer to an element of this array
         for (size_t i = 0; i < _vec.size(); ++i) {
-            _vec[i] *= rhs;
+            _vec[i] *= val;
         }
         return *this;
     }
@@ -375,8 +378,9 @@ public:
     template<class T2, class R = ResultType<T, T2>>
     base_array<R>& operator/=(const T2& rhs) noexcept {
         static_assert(std::is_same_v<T, R>, "the operation changes the type");
+        const T2 val = rhs;   //rhs may refer to an element of this array
         for (size_t i = 0; i < _vec.size(); ++i) {
-            _vec[i] /= rhs;
+            _vec[i] /= val;
         }
         return *this;
     }
